@@ -1,8 +1,296 @@
-//! C16 harness entry (not implemented yet).
+//! C16: LEF -> raw import (`layout21raw::lef::LefImporter::import`).
+//!
+//! Case formats (one JSON object per line):
+//!   {"op":"struct", "layers": null | [[num, name|null], ...], "ncs": null|"on"|"off", "macros":[MACRO...]}
+//!   {"op":"text", "text": "<LEF source>", "tmp": "<path of a scratch file>", "layers": ...}
+//!   {"op":"dec", "d": DEC}        -- probe of the rust_decimal operations the importer uses
+//! MACRO = {"name": s, "size": null|[DEC,DEC], "pins":[{"name": s, "ports":[[LG...]...]}], "obs":[LG...]}
+//! LG    = {"layer": s, "width": null|DEC, "spacing": null|["s"|"d", DEC], "epg": null|bool, "nvias": n, "geoms":[G...]}
+//! G     = ["r", P, P] | ["p", [P...]] | ["w", [P...]] | ["i", G]            (rect, polygon, path, iterate)
+//! P     = [DEC, DEC]        DEC = [negative: bool, "magnitude digits", scale]
+//!
+//! Output: {"lib": <the LefLibrary actually imported, in the case format>, "res": {"ok": LIB} | {"err": msg}}
+//! LIB = {"name","units","cells":[{"name","has_layout","abs": null|{"name","outline":[[x,y]..],
+//!        "ports":[{"net","shapes":[[key,[SHAPE..]]..]}],"blockages":[[key,[SHAPE..]]..]}}],
+//!        "layers":{"slots":[[num,name|null]..],"nums":[[num,key]..],"names":[[name,key]..]}}
+//! A layer `key` is the position of the layer in the slot-map's iteration order (= insertion order);
+//! hash-map ordered lists are sorted by key / number / name.
 use l21h::{json, Value};
+use layout21raw as raw;
+use lef21::LefDecimal;
+use raw::utils::Ptr;
+use std::collections::HashMap;
 
-fn run(_case: &Value) -> Value {
-    json!({"harness_error": "not implemented"})
+// ---------------------------------------------------------------- decimals
+fn dec_of(v: &Value) -> LefDecimal {
+    let neg = v[0].as_bool().expect("dec neg");
+    let mag: i128 = v[1].as_str().expect("dec magnitude string").parse().expect("dec magnitude");
+    let scale = v[2].as_u64().expect("dec scale") as u32;
+    let mut d = LefDecimal::try_from_i128_with_scale(mag, scale).expect("decimal out of representable range");
+    d.set_sign_negative(neg);
+    d
+}
+fn dec_json(d: &LefDecimal) -> Value {
+    json!([d.is_sign_negative(), d.mantissa().unsigned_abs().to_string(), d.scale()])
+}
+fn pt_of(v: &Value) -> lef21::LefPoint {
+    lef21::LefPoint { x: dec_of(&v[0]), y: dec_of(&v[1]) }
+}
+fn pt_json(p: &lef21::LefPoint) -> Value {
+    json!([dec_json(&p.x), dec_json(&p.y)])
+}
+fn pts_of(v: &Value) -> Vec<lef21::LefPoint> {
+    v.as_array().expect("points").iter().map(pt_of).collect()
+}
+
+// ---------------------------------------------------------------- case -> LefLibrary
+fn shape_of(g: &Value) -> lef21::LefShape {
+    match g[0].as_str().expect("geom tag") {
+        "r" => lef21::LefShape::Rect(None, pt_of(&g[1]), pt_of(&g[2])),
+        "p" => lef21::LefShape::Polygon(None, pts_of(&g[1])),
+        "w" => lef21::LefShape::Path(None, pts_of(&g[1])),
+        t => panic!("harness: bad shape tag {}", t),
+    }
+}
+fn geom_of(g: &Value) -> lef21::LefGeometry {
+    if g[0].as_str() == Some("i") {
+        let one = LefDecimal::from(1u32);
+        lef21::LefGeometry::Iterate {
+            shape: shape_of(&g[1]),
+            pattern: lef21::LefStepPattern { numx: one, numy: one, spacex: one, spacey: one },
+        }
+    } else {
+        lef21::LefGeometry::Shape(shape_of(g))
+    }
+}
+fn lg_of(v: &Value) -> lef21::LefLayerGeometries {
+    let mut lg = lef21::LefLayerGeometries::default();
+    lg.layer_name = v["layer"].as_str().expect("layer").to_string();
+    lg.geometries = v["geoms"].as_array().expect("geoms").iter().map(geom_of).collect();
+    if !v["width"].is_null() {
+        lg.width = Some(dec_of(&v["width"]));
+    }
+    if !v["spacing"].is_null() {
+        let d = dec_of(&v["spacing"][1]);
+        lg.spacing = Some(match v["spacing"][0].as_str().expect("spacing tag") {
+            "s" => lef21::LefLayerSpacing::Spacing(d),
+            _ => lef21::LefLayerSpacing::DesignRuleWidth(d),
+        });
+    }
+    if !v["epg"].is_null() {
+        lg.except_pg_net = Some(v["epg"].as_bool().expect("epg"));
+    }
+    for _ in 0..v["nvias"].as_u64().unwrap_or(0) {
+        lg.vias.push(lef21::LefVia {
+            via_name: "v".to_string(),
+            pt: lef21::LefPoint { x: LefDecimal::from(0u32), y: LefDecimal::from(0u32) },
+        });
+    }
+    lg
+}
+fn lib_of(case: &Value) -> lef21::LefLibrary {
+    let mut lib = lef21::LefLibrary::default();
+    lib.names_case_sensitive = match case["ncs"].as_str() {
+        Some("on") => Some(lef21::LefOnOff::On),
+        Some("off") => Some(lef21::LefOnOff::Off),
+        _ => None,
+    };
+    for m in case["macros"].as_array().expect("macros") {
+        let mut mac = lef21::LefMacro::new(m["name"].as_str().expect("macro name"));
+        if !m["size"].is_null() {
+            mac.size = Some((dec_of(&m["size"][0]), dec_of(&m["size"][1])));
+        }
+        for p in m["pins"].as_array().expect("pins") {
+            let mut pin = lef21::LefPin::default();
+            pin.name = p["name"].as_str().expect("pin name").to_string();
+            for port in p["ports"].as_array().expect("ports") {
+                let mut lp = lef21::LefPort::default();
+                lp.layers = port.as_array().expect("port layers").iter().map(lg_of).collect();
+                pin.ports.push(lp);
+            }
+            mac.pins.push(pin);
+        }
+        mac.obs = m["obs"].as_array().expect("obs").iter().map(lg_of).collect();
+        lib.macros.push(mac);
+    }
+    lib
+}
+
+// ---------------------------------------------------------------- LefLibrary -> case format (echo)
+fn shape_json(s: &lef21::LefShape) -> Value {
+    match s {
+        lef21::LefShape::Rect(_, p0, p1) => json!(["r", pt_json(p0), pt_json(p1)]),
+        lef21::LefShape::Polygon(_, pts) => json!(["p", pts.iter().map(pt_json).collect::<Vec<_>>()]),
+        lef21::LefShape::Path(_, pts) => json!(["w", pts.iter().map(pt_json).collect::<Vec<_>>()]),
+    }
+}
+fn lg_json(lg: &lef21::LefLayerGeometries) -> Value {
+    let geoms: Vec<Value> = lg
+        .geometries
+        .iter()
+        .map(|g| match g {
+            lef21::LefGeometry::Shape(s) => shape_json(s),
+            lef21::LefGeometry::Iterate { shape, .. } => json!(["i", shape_json(shape)]),
+        })
+        .collect();
+    json!({
+        "layer": lg.layer_name,
+        "width": lg.width.as_ref().map(dec_json),
+        "spacing": lg.spacing.as_ref().map(|s| match s {
+            lef21::LefLayerSpacing::Spacing(d) => json!(["s", dec_json(d)]),
+            lef21::LefLayerSpacing::DesignRuleWidth(d) => json!(["d", dec_json(d)]),
+        }),
+        "epg": lg.except_pg_net,
+        "nvias": lg.vias.len(),
+        "geoms": geoms,
+    })
+}
+fn lib_json(lib: &lef21::LefLibrary) -> Value {
+    let macros: Vec<Value> = lib
+        .macros
+        .iter()
+        .map(|m| {
+            let pins: Vec<Value> = m
+                .pins
+                .iter()
+                .map(|p| {
+                    let ports: Vec<Value> =
+                        p.ports.iter().map(|pt| Value::Array(pt.layers.iter().map(lg_json).collect())).collect();
+                    json!({"name": p.name, "ports": ports})
+                })
+                .collect();
+            json!({
+                "name": m.name,
+                "size": m.size.as_ref().map(|s| json!([dec_json(&s.0), dec_json(&s.1)])),
+                "pins": pins,
+                "obs": m.obs.iter().map(lg_json).collect::<Vec<_>>(),
+            })
+        })
+        .collect();
+    json!({
+        "ncs": match lib.names_case_sensitive { Some(lef21::LefOnOff::On) => json!("on"), Some(lef21::LefOnOff::Off) => json!("off"), None => Value::Null },
+        "nsites": lib.sites.len(),
+        "macros": macros,
+    })
+}
+
+// ---------------------------------------------------------------- raw Library -> JSON
+fn rpt(p: &raw::Point) -> Value {
+    json!([p.x as i64, p.y as i64])
+}
+fn rshape(s: &raw::Shape) -> Value {
+    match s {
+        raw::Shape::Rect(r) => json!(["r", rpt(&r.p0), rpt(&r.p1)]),
+        raw::Shape::Polygon(p) => json!(["p", p.points.iter().map(rpt).collect::<Vec<_>>()]),
+        raw::Shape::Path(p) => json!(["w", p.width as u64, p.points.iter().map(rpt).collect::<Vec<_>>()]),
+    }
+}
+fn rshapes(m: &HashMap<raw::LayerKey, Vec<raw::Shape>>, keyidx: &HashMap<raw::LayerKey, i64>) -> Value {
+    let mut v: Vec<(i64, Value)> = m
+        .iter()
+        .map(|(k, shapes)| (*keyidx.get(k).unwrap_or(&-1), Value::Array(shapes.iter().map(rshape).collect())))
+        .collect();
+    v.sort_by_key(|e| e.0);
+    Value::Array(v.into_iter().map(|(k, s)| json!([k, s])).collect())
+}
+fn rlib_json(lib: &raw::Library) -> Value {
+    let layers = lib.layers.read().expect("layers lock");
+    let mut keyidx: HashMap<raw::LayerKey, i64> = HashMap::new();
+    let mut slots = Vec::new();
+    for (i, (k, l)) in layers.slots.iter().enumerate() {
+        keyidx.insert(k, i as i64);
+        slots.push(json!([l.layernum, l.name]));
+    }
+    let mut nums: Vec<(i16, i64)> = layers.nums.iter().map(|(n, k)| (*n, *keyidx.get(k).unwrap_or(&-1))).collect();
+    nums.sort();
+    let mut names: Vec<(String, i64)> = layers.names.iter().map(|(n, k)| (n.clone(), *keyidx.get(k).unwrap_or(&-1))).collect();
+    names.sort();
+    let mut cells = Vec::new();
+    for c in lib.cells.iter() {
+        let c = c.read().expect("cell lock");
+        let abs = match &c.abs {
+            None => Value::Null,
+            Some(a) => {
+                let ports: Vec<Value> =
+                    a.ports.iter().map(|p| json!({"net": p.net, "shapes": rshapes(&p.shapes, &keyidx)})).collect();
+                json!({
+                    "name": a.name,
+                    "outline": a.outline.points.iter().map(rpt).collect::<Vec<_>>(),
+                    "ports": ports,
+                    "blockages": rshapes(&a.blockages, &keyidx),
+                })
+            }
+        };
+        cells.push(json!({"name": c.name, "has_layout": c.layout.is_some(), "abs": abs}));
+    }
+    json!({
+        "name": lib.name,
+        "units": format!("{:?}", lib.units),
+        "cells": cells,
+        "layers": {"slots": slots, "nums": nums, "names": names},
+    })
+}
+
+fn layers_of(v: &Value) -> Option<Ptr<raw::Layers>> {
+    if v.is_null() {
+        return None;
+    }
+    let mut layers = raw::Layers::default();
+    for l in v.as_array().expect("layers") {
+        let num = l[0].as_i64().expect("layer num") as i16;
+        let layer = match l[1].as_str() {
+            Some(n) => raw::Layer::new(num, n),
+            None => raw::Layer::from_num(num),
+        };
+        layers.add(layer);
+    }
+    Some(Ptr::new(layers))
+}
+
+fn import(lib: &lef21::LefLibrary, layers: &Value) -> Value {
+    let echo = lib_json(lib);
+    let res = match raw::lef::LefImporter::import(lib, layers_of(layers)) {
+        Ok(rlib) => json!({ "ok": rlib_json(&rlib) }),
+        Err(e) => json!({ "err": format!("{:?}", e) }),
+    };
+    json!({"lib": echo, "res": res})
+}
+
+fn run(case: &Value) -> Value {
+    match case["op"].as_str().unwrap_or("") {
+        "struct" => {
+            let lib = lib_of(case);
+            import(&lib, &case["layers"])
+        }
+        "text" => {
+            let path = case["tmp"].as_str().expect("tmp path");
+            std::fs::write(path, case["text"].as_str().expect("text")).expect("write scratch file");
+            let r = lef21::LefLibrary::open(path);
+            let _ = std::fs::remove_file(path);
+            match r {
+                Ok(lib) => import(&lib, &case["layers"]),
+                Err(e) => json!({"parse_err": format!("{:?}", e)}),
+            }
+        }
+        // the decimal operations used by import_dist (and by the proposed repair), one by one
+        "dec" => {
+            let d = dec_of(&case["d"]);
+            let k = LefDecimal::from(10_000u32);
+            match d.checked_mul(k) {
+                None => json!({"d": dec_json(&d), "mul": null}),
+                Some(s) => json!({
+                    "d": dec_json(&d),
+                    "mul": dec_json(&s),
+                    "fract_zero": s.fract().is_zero(),
+                    "mantissa": s.mantissa().to_string(),
+                    "trunc": dec_json(&s.trunc()),
+                    "trunc_mantissa": s.trunc().mantissa().to_string(),
+                    "spacing_zero": lef21::LefLayerSpacing::Spacing(d) == lef21::LefLayerSpacing::Spacing(LefDecimal::ZERO),
+                }),
+            }
+        }
+        _ => json!({"harness_error": "bad op"}),
+    }
 }
 
 fn main() {
